@@ -49,13 +49,16 @@ ASSUMPTIONS = [
     "info is compared without the automatically added 'Refs' key (Info adds it on construction, to_rich_dict removes it)",
     "views are non-empty; alignment histories never slice an alignment that carries alignment-level (on_alignment) features (known finding C04); Alignment strides are not used (documented NotImplementedError)",
     "omit_gap_pos and other filtering operations that may legitimately return None are not part of collection histories",
+    "alignment rows that are all gaps in the view (empty sequence views) are not compared for strand / coordinates / features; trees on which the history itself produced duplicate node names are not serialised (rich dicts key edges by name)",
     "tree node names are plain ([a-z0-9.]) (newick punctuation in names is known finding C09); names of internal nodes that were unnamed before serialisation are not compared (to_rich_dict documents that it names them)",
     "moltypes / alphabets are compared by their observable content (motifs, gap, missing, ambiguities, complements, indices), not by identity or ==",
     "likelihood functions: lnL, parameter values and motif probs within 1e-9 relative (+1e-12 absolute); rule sets compared after normalising numeric values with the same tolerance",
     "floating point values of tables, dict arrays, distance matrices, trees and maps must round trip exactly (JSON preserves repr of doubles); NaN equals NaN",
     "model_result keyword evaluation_limit has no public accessor and is not compared",
     "annotation dbs are in-memory (source ':memory:')",
-    "discrete-time models (BH, DT) get gap free alignments; codon alignments contain sense codons only",
+    "discrete-time models (BH, DT) get gap free alignments and are not optimised: get_param_rules deliberately lifts probabilities below 1e-6 (adjusted_gt_minprob), so states with probability parameters on the boundary are outside the exact round-trip domain; codon alignments contain sense codons only",
+    "likelihood functions embedded in app results avoid the free rate distribution (reported under lf/bins-free)",
+    "with_gap_motif() of a deserialised old-style alphabet is not compared (the moltype's own alphabets are pre-linked to their gapped partners)",
 ]
 
 ROUTES = ("json", "rich_dict", "pickle")
@@ -97,8 +100,13 @@ def _key(k):
     return repr(norm(k))
 
 
+UNOBS_MARK = "<observer raised on this object>"
+
+
 def differ(a, b, rtol=0.0, atol=0.0, path=""):
-    """first difference between two normalised structures or None"""
+    """first difference between two normalised structures (a: copy, b: original) or None"""
+    if isinstance(b, str) and b == UNOBS_MARK:
+        return None  # nested observer that already fails on the original
     if isinstance(a, bool) or isinstance(b, bool):
         return None if a is b or a == b and type(a) is type(b) else f"{path}: {a!r} != {b!r}"
     if isinstance(a, (int, float)) and isinstance(b, (int, float)):
@@ -555,11 +563,16 @@ def exec_coll(case) -> Soft:
         s.cls("original-disagrees-with-model")
         return s
     skip = {"json": ("features",), "rich_dict": ("features",)} if cur == "NSC" else {}
+    empty_rows = [n for n, v in model.items() if not v.replace("-", "")]
+    if empty_rows:
+        # a row without residues in the view has no strand or coordinates worth the name (empty sequence view)
+        skip = {r: ("features", "row-coordinates") for r in ROUTES}
+        s.cls("row-all-gaps")
     sig = f"collection/{cur}"
     round_trips(s, sig, obj, observers, what, skip_by_route=skip, want=want)
     # member types registered on their own
-    if cur == "A":
-        nm = list(model)[0]
+    if cur == "A" and len(empty_rows) < len(model):
+        nm = [n for n in model if n not in empty_rows][0]
         al_obs = [("str", str), ("name", lambda o: o.name), ("len", len), ("gaps", lambda o: o.map.get_gap_coordinates()), ("seq", lambda o: str(o.data)),
                   ("coordinates", lambda o: o.data.parent_coordinates())]
         ok, al = s.call(sig + "/named_seqs", lambda: obj.named_seqs[nm])
@@ -827,6 +840,11 @@ def exec_tree(case) -> Soft:
     want = observe(tree, [("tree", tree_obs), ("class", lambda o: type(o).__name__)])
     if isinstance(want["tree"], Unobs):
         return s
+    node_names = [v[0] for v in want["tree"]["clades"].values() if v[0] is not None]
+    if len(set(node_names)) != len(node_names):
+        # the history itself produced two nodes with one name (C09's business); rich dicts key edges by name
+        s.cls("duplicate-node-names-after-history")
+        return s
     what = f"{case}"
     for route in ROUTES:
         ok, cp = send(s, "tree", tree, route)
@@ -848,13 +866,13 @@ def exec_tree(case) -> Soft:
         for key, (name, length, params) in w["clades"].items():
             gname, glength, gparams = g["clades"][key]
             if name is not None:
-                s.eq(gname, name, f"tree/{route}/node-name", f"{what}: clade {key}")
+                s.eq(gname, name, f"tree/{route}/node-name", f"clade {key} :: {what}")
             d = differ(glength, length)
-            s.check(d is None, f"tree/{route}/length", f"{what}: clade {key} {d}")
+            s.check(d is None, f"tree/{route}/length", f"clade {key} {d} :: {what}")
             wp = {k: v for k, v in params.items() if k != "length"}
             gp = {k: v for k, v in gparams.items() if k != "length"}
             d = differ(gp, wp)
-            s.check(d is None, f"tree/{route}/edge-params", f"{what}: clade {key} {d}")
+            s.check(d is None, f"tree/{route}/edge-params", f"clade {key} {d} :: {what}")
     has_params = any(len([k for k in v[2] if k != "length"]) for v in want["tree"]["clades"].values())
     s.cls("with-extra-params" if has_params else "lengths-only")
     s.nontrivial = nhist >= 1
@@ -1286,7 +1304,7 @@ def exec_model(case) -> Soft:
         s.cls("original-unobservable")
         return s
     routes = ("json", "pickle") if family == "codon" else ROUTES
-    round_trips(s, f"model/{family}", sm, observers, f"{case}", routes=routes, rtol=1e-12, atol=1e-14, want=want)
+    round_trips(s, "model", sm, observers, f"{case}", routes=routes, rtol=1e-12, atol=1e-14, want=want)
     s.cls("family:" + family.split(":")[0], "variant" if kw else "default")
     s.nontrivial = bool(kw)
     return s
@@ -1601,6 +1619,8 @@ def build_lf(s: Soft, pre: str, spec):
                 fn = lambda: lf.set_motif_probs(probs)  # noqa: E731
                 tag = "mprobs"
         else:
+            if discrete:
+                continue  # probability parameters reach the boundary; get_param_rules lifts values below 1e-6 by design
             fn = lambda: lf.optimise(local=True, max_evaluations=4 + a % 12, limit_action="ignore", show_progress=False)  # noqa: E731
             tag = "optimise"
         try:
@@ -1682,7 +1702,295 @@ def exec_lf(case) -> Soft:
     return s
 
 
+# ================================================================ app results
+def _result_lf(spec):
+    """likelihood functions embedded in results stay clear of the circumstance reported under lf/bins-free"""
+    return dict(spec, dist="gamma")
+
+
+@st.composite
+def result_cases(draw, light=False):
+    kinds = ["generic", "generic", "tabular", "notcompleted", "notcompleted"] if light else ["model", "model", "model3", "hypothesis", "hypothesis", "bootstrap"]
+    kind = draw(st.sampled_from(kinds))
+    case = {"kind": kind, "source": draw(st.sampled_from(["foo.fa", "dir/some data.json", "x"]))}
+    small_lf = lf_spec(allow_loci=False, max_ops=2).map(_result_lf)
+    if kind in ("generic", "tabular"):
+        pool = ["table", "dictarray", "distance"] if kind == "tabular" else ["table", "dictarray", "distance", "aln", "aln-sliced", "tree", "plain", "number", "seqcoll"]
+        case["items"] = [[f"k{i}", draw(st.sampled_from(pool)), draw(st.integers(0, 1000))] for i in range(draw(st.integers(0, 4)))]
+        if kind == "generic" and draw(st.booleans()):
+            case["items"].append([["a", "b"], "plain", 3])  # tuple key
+    elif kind == "model":
+        case.update(lf=draw(small_lf), name=draw(st.sampled_from(["m1", "HKY85", None])), stat=draw(st.sampled_from(["sum", "max"])),
+                    elapsed=draw(st.sampled_from([None, 1.5])), nevals=draw(st.sampled_from([None, 33])))
+    elif kind == "model3":
+        case.update(lfs=[draw(small_lf) for _ in range(3)], name="split", stat=draw(st.sampled_from(["sum", "max"])))
+    elif kind in ("hypothesis", "bootstrap"):
+        case.update(null=draw(small_lf), alts=[draw(small_lf) for _ in range(draw(st.integers(1, 2)))], name=draw(st.sampled_from([None, "hyp"])), nsim=draw(st.integers(0, 2)))
+    else:
+        case.update(type=draw(st.sampled_from(["ERROR", "FAIL", "BUG"])), origin=draw(st.sampled_from(["some_app", "take_named_seqs", "x y"])),
+                    message=draw(st.sampled_from(["a message", "multi\nline \"quoted\" message", "", "Traceback ...\n  File x.py, line 3"])),
+                    src=draw(st.sampled_from(["none", "str", "aln", "nested", "nested-aln", "result"])))
+    return case
+
+
+def _value(kind, a):
+    import numpy
+
+    from cogent3 import make_aligned_seqs, make_table, make_tree, make_unaligned_seqs
+    from cogent3.evolve.fast_distance import DistanceMatrix
+    from cogent3.util.dict_array import DictArrayTemplate
+
+    if kind == "table":
+        return make_table(header=["id", "x", "y"], data=[["r1", a, a / 7], ["r2", -a, float("nan")]], title=f"t{a}", index_name="id" if a % 2 else None).sorted(columns="x")
+    if kind == "dictarray":
+        return DictArrayTemplate(["p", "q"], ["u", "v", "w"]).wrap(numpy.arange(6).reshape(2, 3) / (1 + a % 5))["q" if a % 2 else "p"]
+    if kind == "distance":
+        return DistanceMatrix({("a", "b"): a / 100, ("a", "c"): 0.5, ("b", "c"): 0.25, ("a", "d"): 1.0, ("b", "d"): 2.0, ("c", "d"): 3.0}).take_dists(["c", "a", "b"])
+    if kind in ("aln", "aln-sliced"):
+        aln = make_aligned_seqs({"s1": "ACG-TAGGCT", "s2": "AC--TAGGAT", "s3": "ACGTTA-GCT"}, moltype="dna", array_align=bool(a % 2), info={"source": "orig.fa"})
+        return aln[1 + a % 3: 8].rc() if kind == "aln-sliced" else aln
+    if kind == "seqcoll":
+        return make_unaligned_seqs({"s1": "ACGTAGGCT", "s2": "ACTAGG"}, moltype="dna").take_seqs(["s2", "s1"])
+    if kind == "tree":
+        return make_tree("((a:0.1,b:0.2)ab:0.05,c:0.3,d:0.4)").rooted_with_tip("c" if a % 2 else "a")
+    if kind == "plain":
+        return {"x": [1, 2.5, "three"], "nested": {"a": None, "b": True}, "n": a}
+    return a / 3
+
+
+def _sub_obs(v, observers):
+    out = {"type": type(v).__name__}
+    for k, w in observe(v, observers).items():
+        out[k] = UNOBS_MARK if isinstance(w, Unobs) else w
+    return out
+
+
+def value_obs(v):
+    name = type(v).__name__
+    if name == "Table":
+        return {"type": name, **{k: fn(v) for k, fn in table_obs()}}
+    if name == "DictArray":
+        return {"type": name, "names": v.template.names, "array": v.array}
+    if name == "DistanceMatrix":
+        return {"type": name, "names": [str(n) for n in v.names], "array": v.array}
+    if name in ("Alignment", "ArrayAlignment", "SequenceCollection"):
+        return {"type": name, "names": list(v.names), "seqs": v.to_dict(), "moltype": v.moltype.label, "info": clean_info(v.info)}
+    if name == "PhyloNode":
+        return {"type": name, "tree": tree_obs(v)}
+    if name == "AlignmentLikelihoodFunction":
+        return {"type": name, "lnL": v.lnL, "nfp": v.nfp, "statistics": {t.title: [list(t.header), t.to_list()] for t in v.get_statistics(with_motif_probs=True, with_titles=True)},
+                "alignment": v.get_param_value("alignment").to_dict(), "model": v.model.name, "rules": sorted((norm(r) for r in v.get_param_rules()), key=_rule_key)}
+    if name == "model_result":
+        return _sub_obs(v, _model_result_obs())
+    if name == "hypothesis_result":
+        return _sub_obs(v, _hyp_obs())
+    if name == "NotCompleted":
+        return _sub_obs(v, _nc_obs())
+    if isinstance(v, dict) and "type" in v:
+        raise HarnessError(f"value still serialised: {str(v)[:200]}")
+    return v
+
+
+def _generic_obs():
+    def items(o):
+        o.deserialised_values()
+        return [[norm(k), norm(value_obs(v))] for k, v in o.items()]
+
+    return [("class", lambda o: type(o).__name__), ("source", lambda o: str(o.source)), ("keys", lambda o: [norm(k) for k in o.keys()]), ("items", items), ("len", len)]
+
+
+def _model_result_obs():
+    def lfs(o):
+        o.deserialised_values()
+        lf = o.lf
+        if isinstance(lf, dict):
+            return {str(k): value_obs(v) for k, v in lf.items()}
+        return value_obs(lf)
+
+    return [
+        ("class", lambda o: type(o).__name__), ("source", lambda o: str(o.source)), ("name", lambda o: o.name), ("keys", lambda o: [norm(k) for k in o.keys()]),
+        ("lnL", lambda o: o.lnL), ("nfp", lambda o: o.nfp), ("DLC", lambda o: o.DLC), ("unique_Q", lambda o: o.unique_Q),
+        ("elapsed_time", lambda o: o.elapsed_time), ("num_evaluations", lambda o: o.num_evaluations), ("lf", lfs),
+    ]
+
+
+def _hyp_obs():
+    def members(o):
+        o.deserialised_values()
+        return {str(k): norm(value_obs(v)) for k, v in o.items()}
+
+    return [
+        ("class", lambda o: type(o).__name__), ("source", lambda o: str(o.source)), ("name", lambda o: o.name), ("keys", lambda o: list(o.keys())),
+        ("LR", lambda o: o.LR), ("df", lambda o: o.df), ("pvalue", lambda o: o.pvalue), ("null", lambda o: o.null.name), ("alt", lambda o: o.alt.name), ("members", members),
+    ]
+
+
+def _nc_obs():
+    return [("class", lambda o: type(o).__name__), ("type", lambda o: o.type), ("origin", lambda o: o.origin), ("message", lambda o: o.message),
+            ("source", lambda o: None if o.source is None else str(o.source)), ("str", str), ("bool", bool), ("int", int)]
+
+
+def exec_result(case) -> Soft:
+    from cogent3 import make_aligned_seqs
+    from cogent3.app.composable import NotCompleted
+    from cogent3.app.result import bootstrap_result, generic_result, hypothesis_result, model_result, tabular_result
+
+    s = Soft("C10/")
+    kind = case["kind"]
+    pre = f"result/{kind}/"
+    src = case["source"]
+    tol = {}
+
+    def mr(spec, name, **kw):
+        r = build_lf(s, pre + "lf/", spec)
+        if r is None:
+            return None
+        res = model_result(name=name, source=src, **kw)
+        res[name if name is not None else "lf"] = r[0]
+        return res
+
+    if kind in ("generic", "tabular"):
+        def build():
+            res = (generic_result if kind == "generic" else tabular_result)(source=src)
+            for key, vk, a in case["items"]:
+                res[tuple(key) if isinstance(key, list) else key] = _value(vk, a)
+            return res
+
+        ok, obj = s.call(pre + "construct", build)
+        observers = _generic_obs()
+        nontrivial = any(vk in ("table", "dictarray", "distance", "aln-sliced", "tree", "seqcoll") for _, vk, _ in case["items"])
+        for _, vk, _ in case["items"]:
+            s.cls("value:" + vk)
+    elif kind == "model":
+        kw = dict(stat=sum if case["stat"] == "sum" else max, elapsed_time=case["elapsed"], num_evaluations=case["nevals"])
+        obj = mr(case["lf"], case["name"], **kw)
+        ok = obj is not None
+        observers = _model_result_obs()
+        tol = LF_TOL
+        nontrivial = bool(case["lf"]["ops"])
+        s.cls("lf:" + lf_label(case["lf"])) if ok else None
+    elif kind == "model3":
+        def build():
+            res = model_result(name=case["name"], source=src, stat=sum if case["stat"] == "sum" else max)
+            for i, spec in enumerate(case["lfs"]):
+                r = build_lf(s, pre + "lf/", spec)
+                if r is None:
+                    return None
+                res[i + 1] = r[0]
+            return res
+
+        ok, obj = s.call(pre + "construct", build)
+        ok = ok and obj is not None
+        observers = _model_result_obs()
+        tol = LF_TOL
+        nontrivial = any(sp["ops"] for sp in case["lfs"])
+    elif kind in ("hypothesis", "bootstrap"):
+        def build_h():
+            res = hypothesis_result(name_of_null="null", name=case["name"], source=src)
+            m0 = mr(case["null"], "null")
+            if m0 is None:
+                return None
+            res["null"] = m0
+            for i, spec in enumerate(case["alts"]):
+                m1 = mr(spec, f"alt{i}")
+                if m1 is None:
+                    return None
+                res[f"alt{i}"] = m1
+            return res
+
+        def build():
+            h = build_h()
+            if h is None or kind == "hypothesis":
+                return h
+            b = bootstrap_result(source=src)
+            b.observed = h
+            for _ in range(case["nsim"]):
+                b.add_to_null(build_h())
+            return b
+
+        ok, obj = s.call(pre + "construct", build)
+        ok = ok and obj is not None
+        if kind == "hypothesis":
+            observers = _hyp_obs()
+        else:
+            observers = _generic_obs() + [("observed.LR", lambda o: o.observed.LR), ("null_dist", lambda o: o.null_dist)]
+        tol = LF_TOL
+        nontrivial = bool(case["null"]["ops"]) or any(sp["ops"] for sp in case["alts"])
+    else:
+        def build():
+            sk = case["src"]
+            aln = make_aligned_seqs({"s1": "ACGT", "s2": "ACGA"}, moltype="dna", info={"source": "path/to/aln.fa"})
+            if sk == "none":
+                source = None
+            elif sk == "str":
+                source = src
+            elif sk == "aln":
+                source = aln[1:3]
+            elif sk == "result":
+                source = generic_result(source=src)
+            else:
+                source = NotCompleted("ERROR", "first_app", "inner message", source=aln if sk == "nested-aln" else src)
+            origin = source if sk.startswith("nested") and case["origin"] == "x y" else case["origin"]
+            return NotCompleted(case["type"], origin, case["message"], source=source)
+
+        ok, obj = s.call(pre + "construct", build)
+        observers = _nc_obs()
+        nontrivial = case["src"] in ("aln", "nested", "nested-aln", "result")
+        s.cls("source:" + case["src"])
+    if not ok:
+        return s
+    round_trips(s, "result/" + kind, obj, observers, f"{case}", **tol)
+    s.cls(kind)
+    s.nontrivial = bool(nontrivial)
+    return s
+
+
+# ==================================================================== registry
+COVERED_KEYS = {
+    "cogent3.util.table.Table": "tabular", "cogent3.util.dict_array.DictArray": "tabular", "cogent3.evolve.fast_distance.DistanceMatrix": "tabular",
+    "cogent3.core.sequence.SeqView": "sequence", "cogent3.app.composable.NotCompleted": "results", "cogent3.app.result": "results",
+    "cogent3.core.moltype": "basics", "cogent3.core.alphabet": "basics", "cogent3.core.alignment.Aligned": "collection", "cogent3.core.sequence": "sequence",
+    "cogent3.core.alignment": "collection", "cogent3.core.tree": "trees", "cogent3.evolve.substitution_model": "models", "cogent3.evolve.ns_substitution_model": "models",
+    "cogent3.evolve.parameter_controller": "likelihood_function", "cogent3.core.location.IndelMap": "maps", "cogent3.core.location.FeatureMap": "maps",
+    "cogent3.core.annotation_db.BasicAnnotationDb": "annotation_db", "cogent3.core.annotation_db.GffAnnotationDb": "annotation_db",
+    "cogent3.core.annotation_db.GenbankAnnotationDb": "annotation_db", "cogent3.core.new_alphabet.CharAlphabet": "basics", "cogent3.core.new_alphabet.KmerAlphabet": "basics",
+    "cogent3.core.new_alphabet.CodonAlphabet": "basics", "cogent3.core.new_sequence.Sequence": "sequence", "cogent3.core.new_sequence.ProteinSequence": "sequence",
+    "cogent3.core.new_sequence.ByteSequence": "sequence", "cogent3.core.new_sequence.ProteinWithStopSequence": "sequence", "cogent3.core.new_sequence.DnaSequence": "sequence",
+    "cogent3.core.new_sequence.RnaSequence": "sequence", "cogent3.core.new_alignment.SeqsData": "collection", "cogent3.core.new_alignment.SequenceCollection": "collection",
+}
+UNCOVERED_KEYS = {"annotation_to_annotation_db"}  # converter for the pre-2023 'annotations' list format, no object serialises to it any more
+
+
+def enum_registry(tier):
+    return [{"check": "registry"}]
+
+
+def exec_registry(case) -> Soft:
+    import importlib
+
+    for mod in ("cogent3", "cogent3.app.result", "cogent3.app.composable", "cogent3.core.new_sequence", "cogent3.core.new_alignment", "cogent3.core.new_alphabet",
+                "cogent3.core.annotation_db", "cogent3.core.location", "cogent3.evolve.likelihood_function", "cogent3.evolve.fast_distance", "cogent3.util.table",
+                "cogent3.util.dict_array", "cogent3.core.tree", "cogent3.core.profile"):
+        importlib.import_module(mod)
+    from cogent3.util.deserialise import _deserialise_func_map
+
+    s = Soft("C10/")
+    keys = set(_deserialise_func_map)
+    new = sorted(keys - set(COVERED_KEYS) - UNCOVERED_KEYS)
+    if new:
+        raise HarnessError(f"deserialiser registry has keys without a generator or an 'uncovered' entry: {new}")
+    for k in sorted(keys):
+        s.cls(("covered:" if k in COVERED_KEYS else "uncovered:") + k)
+    for k in sorted(set(COVERED_KEYS) - keys):
+        s.cls("not-registered-any-more:" + k)
+    s.evals = len(keys)
+    return s
+
+
 SUBS = [
+    Sub("registry", exec_registry, enumerate=enum_registry, exhaustive=True, weight=0.1),
+    Sub("results", exec_result, strategy=result_cases(), quick=160, thorough=16_000, shards_quick=8, weight=8.0),
+    Sub("results_light", exec_result, strategy=result_cases(light=True), quick=400, thorough=32_000, shards_quick=4, weight=1.0),
     Sub("likelihood_function", exec_lf, strategy=lf_spec(), quick=320, thorough=16_000, shards_quick=8, weight=5.0),
     Sub("annotation_db", exec_db, strategy=db_cases(), quick=300, thorough=32_000, shards_quick=4),
     Sub("basics", exec_basic, enumerate=enum_basics, exhaustive=True, weight=0.2),
